@@ -646,11 +646,48 @@ def prove(claim, pc: list, *, logic: Optional[str] = "QF_NRA", timeout_ms: int =
         s.add(c)
     s.add(z3.Not(claim))
     r = _timed_check(s, hard_ms=timeout_ms + 2000)
+    _cross_check(s, r)
     if r == "unsat":
         return "proved", None
     if r == "sat":
         return "refuted", s.model()
     return "unknown", None
+
+
+XCHECK = {"every": 0, "count": 0, "checked": 0, "agree": 0, "other_unknown": 0, "disagree": []}
+
+
+def _cross_check(solver: z3.Solver, result: str) -> None:
+    """Thorough tier: re-decide a sample of the obligations with the independent z3 4.8.12 binary (/usr/bin/z3).
+    A sat/unsat disagreement is recorded and turns the run into a harness error."""
+    if not XCHECK["every"] or result not in ("sat", "unsat"):
+        return
+    XCHECK["count"] += 1
+    if XCHECK["count"] > 20 and XCHECK["count"] % XCHECK["every"]:
+        return
+    import os
+    import subprocess
+    import tempfile
+
+    try:
+        text = solver.to_smt2()
+        with tempfile.NamedTemporaryFile("w", suffix=".smt2", delete=False) as f:
+            f.write(text)
+            path = f.name
+        p = subprocess.run(["/usr/bin/z3", "-T:20", path], capture_output=True, text=True, timeout=40)
+        os.unlink(path)
+        out = (p.stdout.strip().splitlines() or ["unknown"])[0].strip()
+    except Exception:
+        out = "unknown"
+    XCHECK["checked"] += 1
+    if "(error" in (p.stdout if "p" in dir() else ""):
+        out = "unknown"
+    if out == result:
+        XCHECK["agree"] += 1
+    elif out in ("sat", "unsat"):
+        XCHECK["disagree"].append({"z3_5": result, "z3_4.8.12": out, "query": text[:2000]})
+    else:
+        XCHECK["other_unknown"] += 1
 
 
 def satisfiable(conds: list, *, logic: Optional[str] = "QF_NRA", timeout_ms: int = 10000) -> tuple[str, Optional[z3.ModelRef]]:
